@@ -30,6 +30,10 @@ type retryCase struct {
 	// keeps it open (calls made meanwhile cannot write), U it rolls back, B a ReadStream from
 	// the oldest offset that the consumer abandons after its first event
 	Ops []string `json:"ops"`
+	// Step (ops "As" / "Ss<n>"): the call is made with a context that becomes cancelled at the
+	// Step-th time the operation consults it (Done or Err): every point at which a write looks
+	// at its context is a point at which the caller may have given up
+	Step int `json:"context_cancelled_at_its_nth_consultation,omitempty"`
 	// Opts: the store is opened with a metrics hook (bit 0), a logger (bit 1), a stream
 	// batch size of 2 (bit 2)
 	Opts int `json:"store_options,omitempty"`
@@ -40,7 +44,34 @@ func (r retryCase) String() string {
 	if r.Opts&4 != 0 {
 		o += " +stream-batch-size-2"
 	}
+	if r.Step > 0 {
+		o += fmt.Sprintf(" step-context-cancelled-at-consultation-%d", r.Step)
+	}
 	return fmt.Sprintf("retry%v%s", r.Ops, o)
+}
+
+// stepCtx is cancelled from its k-th consultation on.
+type stepCtx struct {
+	context.Context
+	k, n int
+	done chan struct{}
+}
+
+func newStepCtx(k int) *stepCtx { return &stepCtx{Context: context.Background(), k: k, done: make(chan struct{})} }
+
+func (c *stepCtx) tick() bool {
+	c.n++
+	if c.n == c.k {
+		close(c.done)
+	}
+	return c.n >= c.k
+}
+func (c *stepCtx) Done() <-chan struct{} { c.tick(); return c.done }
+func (c *stepCtx) Err() error {
+	if c.tick() {
+		return context.Canceled
+	}
+	return nil
 }
 
 type nopHook struct{ calls, errs int }
@@ -100,6 +131,8 @@ func runRetryCase(rc retryCase) (out []string) {
 			return cctx
 		case 'd':
 			return dctx
+		case 's':
+			return newStepCtx(rc.Step)
 		}
 		return bg
 	}
@@ -202,7 +235,7 @@ func runRetryCase(rc retryCase) (out []string) {
 		case op[0] == 'S':
 			ctx := bg
 			rest := op[1:]
-			if rest[0] == 'c' || rest[0] == 'd' {
+			if rest[0] == 'c' || rest[0] == 'd' || rest[0] == 's' {
 				ctx, rest = ctxOf(rest[0]), rest[1:]
 			}
 			var n int
@@ -265,6 +298,14 @@ func retryCases() []retryCase {
 		}
 		rec([]string{}, false)
 	}
+	// a write whose context ends somewhere inside the operation: every consultation point
+	for _, opts := range []int{0, 4} {
+		for step := 1; step <= 12; step++ {
+			for _, ops := range [][]string{{"A", "As", "A", "S1"}, {"A", "Ss2", "A", "S1"}, {"As", "A", "S1", "A"}, {"A", "A", "As", "Ss1", "A", "S2"}} {
+				l = append(l, retryCase{Ops: ops, Opts: opts, Step: step})
+			}
+		}
+	}
 	// streams the consumer walks away from, with and without a stream batch size
 	small := []string{"A", "S1", "B", "R", "Ac"}
 	for _, opts := range []int{0, 4} {
@@ -296,7 +337,7 @@ func runRetries(c *h.Check) {
 		}
 		hasFail := false
 		for _, o := range rc.Ops {
-			hasFail = hasFail || o == "L" || o == "B" || (len(o) > 1 && (o[1] == 'c' || o[1] == 'd'))
+			hasFail = hasFail || o == "L" || o == "B" || (len(o) > 1 && (o[1] == 'c' || o[1] == 'd' || o[1] == 's'))
 		}
 		if !hasFail {
 			continue // histories without a failing call are the crash enumeration's subject
